@@ -20,6 +20,12 @@ CLAIMS = {
  "C10": dict(level="exploration", technique="property-based testing (rapid) of operation sequences against an overlay-map model + round-trip through the verifier's replay (XMReaderFromRWSet)",
    text="Generated Get/Put/Del/Select/Transfer sequences on the real sandbox over generated backing states; every result is compared with an overlay-map model, the flushed read/write set with the statement's three rules, and the same calls are replayed over the read set alone (the verifier's situation) demanding identical results and write set.",
    note="The backing reader imitates xmodel.XModel (verified against the real one by a probe); nil end keys only where XModel and MemXModel agree; no writes while an iterator is open."),
+ "C13": dict(level="exploration", technique=T_MODEL + "; blocks produced by the real Miner.packBlock; graph-path oracle over the pool's dependency graph (all map orders); replica differential",
+   text="Pools rich in dependency chains, read-only sharers followed by a writer, fee payers and timer tasks; every block produced by the real packBlock must verify, carry the right award, be executable in exactly its order on the parent state and replay on a replica to the producer's state. For all map-iteration orders the pool's dependency graph must contain a path for every pair the model orders; TopSortDFS is checked on generated graphs.",
+   note="As C01; the award of produced blocks is never spent (GenerateAwardTx uses the wall clock); one known finding (timer transaction computed over pending state) excluded by shape."),
+ "C14": dict(level="exploration", technique="exhaustive enumeration of signature-entry multisets for small validator sets + rapid generation above, against a counting oracle (necessary direction)",
+   text="All multisets of certificate entries (valid member, repeat, second signature of a member, non-member, wrong id, corrupted, foreign key, collector's own) up to n+1 entries for n <= 7 (thorough <= 10) through CheckProposal, the real handleReceivedProposal / handleReceivedVoteMsg, tdpos / xpoa CheckMinerMatch, CheckVote and CalVotesThreshold: accepted implies enough distinct valid member signatures besides the collector.",
+   note="Only the necessary direction is asserted (vacuity guard counts accepted certificates); validator sets from contract snapshots are not exercised; one known finding (collector's own signature counted) excluded by shape."),
  "C15": dict(level="exploration", technique="exhaustive enumeration of arrival orders for small proposal trees + rapid stateful testing against a set-of-nodes model",
    text="QCPendingTree driven synchronously with the call shapes of its real callers: all arrival orders of every tree of <= 5-6 proposals (enumerated), random orders with votes, justifies, duplicates and rollbacks up to 12 proposals; after every step tree shape, exactly-once storage, marker ancestry, HighQC monotonicity and root movement are checked against a model.",
    note="Drives the tree through verif-tagged wrappers, not through Smr with signatures; markers at or below the committed height are not compared; one known finding excluded by shape."),
@@ -32,6 +38,9 @@ CLAIMS = {
  "C18": dict(level="exploration", technique=T_MODEL + "; snapshot reads at every ancestor block compared with per-block model states",
    text="The C01 machine biased to key histories; after every step, for every ancestor block B of the state pointer (pointer on the main chain) and every key, CreateSnapshot(B).Get / CreateXMSnapshotReader(B).Get must equal the model state at B, and the tip snapshot must hide pending writes.",
    note="As C01; restricted to main-chain B as the statement is."),
+ "C20": dict(level="exploration", technique="exhaustive single-bit / burst corruption sweeps + rapid round-trip; model-based dispatcher programs; real-goroutine programs under the race detector with an interval (linearisability-window) oracle",
+   text="Round-trip of every message type / option combination / payload class incl. a real wire hop; every single-bit flip for payloads <= 2 KiB and sampled bursts <= 32 bits must be detected; sequential dispatcher programs against a multiset model; concurrent Register/UnRegister/Dispatch programs from 2-6 goroutines built with -race, every delivery explained by a registration live during the dispatch.",
+   note="De-duplication window expiry is not asserted (wall clock); interleavings inside Dispatch are sampled by the Go scheduler, the race detector's silence is not a proof."),
  "C19": dict(level="exploration", technique="stateful property testing (rapid) of contract-call sequences against a ledger model written from the statement",
    text="Generated sequences of Init / Transfer (to others, to self, to fresh accounts, all amount classes) / Propose / Vote / Thaw / timer ticks / direct Lock-UnLock attempts executed on the real kernel contracts through the real contract manager; after every step supply conservation, lock discipline and the transfer guard are checked.",
    note="Executes over an in-memory backing state (MemXModel) committing each successful write set; the real TDPoS nominate/vote methods cannot run there, a forwarder kernel contract issues the same Lock/UnLock calls for the second lock type."),
